@@ -428,14 +428,8 @@ def _thread_result(f, call, region, retloc, hname, max_tail=None, goto_only=Fals
                     var = "ok" if a["variant"] in OKV else "err"
                     # Ok(Some(..)) / Ok(None): the payload's own variant, when it is built in the same block
                     ops = rv.get("ops") or []
-                    pl0 = (ops[0].get("move") or ops[0].get("copy")) if len(ops) == 1 and isinstance(ops[0], dict) else None
-                    if var == "ok" and pl0 and not pl0["proj"]:
-                        for st2 in reversed(bl["stmts"][:si]):
-                            if st2["k"] == "assign" and not st2["place"]["proj"] and st2["place"]["local"] == pl0["local"]:
-                                a2 = st2["rv"].get("aggregate") if isinstance(st2.get("rv"), dict) else None
-                                if a2 and a2.get("kind") == "adt" and a2.get("adt") in ("std::option::Option", "std::result::Result"):
-                                    pay = a2.get("variant")
-                                break
+                    if var == "ok" and len(ops) == 1:
+                        pay = _payload_variant(f, bid, si, ops[0])
                 else:
                     var = None
         tm = bl["term"]
@@ -496,6 +490,82 @@ def _thread_result(f, call, region, retloc, hname, max_tail=None, goto_only=Fals
             blocks.append(nb)
         for bid in starts:
             blocks[bid]["term"] = _retarget(blocks[bid]["term"], mapping)
+
+
+def _agg_def(f, bid, si, local):
+    """(aggregate rvalue, block id, statement index) of the Option/Result aggregate last assigned to `local` before statement `si` of block
+    `bid`, looking back through the chain of single-predecessor goto blocks that leads to it (plain moves between locals are followed)"""
+    blocks = f["blocks"]
+    cur, loc = bid, local
+    stmts = blocks[bid]["stmts"][:si]
+    for _ in range(8):
+        for k in range(len(stmts) - 1, -1, -1):
+            st2 = stmts[k]
+            if st2["k"] == "assign" and not st2["place"]["proj"] and st2["place"]["local"] == loc:
+                rv2 = st2.get("rv") if isinstance(st2.get("rv"), dict) else {}
+                a2 = rv2.get("aggregate")
+                if a2 and a2.get("kind") == "adt" and a2.get("adt") in ("std::option::Option", "std::result::Result"):
+                    return (rv2, cur, k)
+                src = (rv2.get("use") or {}) if isinstance(rv2.get("use"), dict) else {}
+                spl = src.get("move") or src.get("copy")
+                if spl and not spl["proj"]:
+                    loc = spl["local"]
+                    continue
+                if spl and len(spl["proj"]) == 2 and spl["proj"][0]["k"] == "downcast" and spl["proj"][1]["k"] == "field" and spl["proj"][1].get("idx") == 0:
+                    inner = _agg_def(f, cur, k, spl["local"])
+                    if inner is None or inner[0]["aggregate"].get("variant") != spl["proj"][0].get("variant"):
+                        return None
+                    ops = inner[0].get("ops") or []
+                    ipl = (ops[0].get("move") or ops[0].get("copy")) if len(ops) == 1 and isinstance(ops[0], dict) else None
+                    if not ipl or ipl["proj"]:
+                        return None
+                    return _agg_def(f, inner[1], inner[2], ipl["local"])
+                return None
+        live = _live_blocks(f)
+        preds = [b["id"] for b in blocks if not b["cleanup"] and b["id"] in live and cur in _succs(b["term"])]
+        if len(preds) != 1:
+            return None
+        pt = blocks[preds[0]]["term"]
+        if not (pt["k"] == "goto" or (pt["k"] == "call" and pt.get("target") == cur and not (pt["dest"]["local"] == loc and not pt["dest"]["proj"]))):
+            return None
+        cur = preds[0]
+        stmts = blocks[cur]["stmts"]
+    return None
+
+
+def _live_blocks(f):
+    """ids of the blocks reachable from the entry (threading leaves the unthreaded originals behind, often unreachable)"""
+    blocks = f["blocks"]
+    seen, stack = set(), [0]
+    while stack:
+        x = stack.pop()
+        if x in seen:
+            continue
+        seen.add(x)
+        stack.extend(_succs(blocks[x]["term"]))
+    return seen
+
+
+def _payload_variant(f, bid, si, op):
+    """variant of the Option/Result value that operand `op` (a local, or `(local as V).0`) holds at statement `si` of block `bid`"""
+    pl0 = op.get("move") or op.get("copy") if isinstance(op, dict) else None
+    if not pl0:
+        return None
+    if not pl0["proj"]:
+        d = _agg_def(f, bid, si, pl0["local"])
+        return d[0]["aggregate"].get("variant") if d else None
+    pr = pl0["proj"]
+    if len(pr) == 2 and pr[0]["k"] == "downcast" and pr[1]["k"] == "field" and pr[1].get("idx") == 0:
+        outer = _agg_def(f, bid, si, pl0["local"])
+        if outer is None or outer[0]["aggregate"].get("variant") != pr[0].get("variant"):
+            return None
+        ops = outer[0].get("ops") or []
+        ipl = (ops[0].get("move") or ops[0].get("copy")) if len(ops) == 1 and isinstance(ops[0], dict) else None
+        if not ipl or ipl["proj"]:
+            return None
+        d = _agg_def(f, outer[1], outer[2], ipl["local"])
+        return d[0]["aggregate"].get("variant") if d else None
+    return None
 
 
 def _nested_arm(f, arm, pay, hname):
@@ -569,7 +639,12 @@ COMBINATORS = {
     ("std::result::Result", "and_then"): ("Ok", 0, "Err", 1, "apply", "err-pass", 1, 2),
     ("std::result::Result", "unwrap_or"): ("Ok", 0, "Err", 1, "payload", ("arg", 1), None, 2),
     ("std::result::Result", "is_ok_and"): ("Ok", 0, "Err", 1, "apply", ("bool", False), 1, 2),
+    # Option -> Result adaptors: rewritten only when the subject was itself just produced by a rewritten combinator (its variant is then
+    # known on each incoming path and the jump threading below removes the merge); elsewhere they stay calls (outcome-transparent wrappers)
+    ("std::option::Option", "ok_or"): ("Some", 1, "None", 0, "wrap-ok", ("err-arg", 1), None, 2),
+    ("std::option::Option", "ok_or_else"): ("Some", 1, "None", 0, "wrap-ok", ("err-call", 1), None, 2),
 }
+RESULT = "std::result::Result"
 
 
 def _closure_def_of(f, local):
@@ -738,6 +813,19 @@ def _desugar_combinator(views, f, bid, depth, stack, pending):
     okv, okd, errv, errd, ok_action, fail_action, cidx, nargs = spec
     if len(t["args"]) != nargs:
         return False
+    if ok_action == "wrap-ok":
+        sp_ = t["args"][0].get("move")
+        if not sp_ or sp_["proj"] or t["dest"]["proj"]:
+            return False
+        defs_ = [st for bb_ in f["blocks"] if not bb_["cleanup"] for st in bb_["stmts"] if st["k"] == "assign" and st["place"]["local"] == sp_["local"] and not st["place"]["proj"]]
+        calls_ = [bb_ for bb_ in f["blocks"] if not bb_["cleanup"] and bb_["term"]["k"] == "call" and bb_["term"]["dest"]["local"] == sp_["local"]]
+        if calls_ or len(defs_) < 2 or not all(st.get("synth") for st in defs_):
+            return False
+        if fail_action[0] == "err-call":
+            cop_ = t["args"][1]
+            cpl_ = cop_.get("move") or cop_.get("copy")
+            if not cpl_ or cpl_["proj"] or _closure_def_of(f, cpl_["local"]) is None:
+                return False
     line = t.get("line")
     adt = key[0]
     dest, target = t["dest"], t["target"]
@@ -781,23 +869,32 @@ def _desugar_combinator(views, f, bid, depth, stack, pending):
         fstmts = [mk(pl(e), {"use": {"move": pl(x, fld("Err", errd))}}), mk(dest, agg("Err", errd, [{"move": pl(e)}]))]
     elif fail_action[0] == "arg":
         fstmts = [mk(dest, {"use": t["args"][fail_action[1]]})]
+    elif fail_action[0] == "err-arg":
+        fstmts = [mk(dest, {"aggregate": {"kind": "adt", "adt": RESULT, "variant": "Err", "idx": 1, "fields": ["0"]}, "ops": [t["args"][fail_action[1]]]})]
+    elif fail_action[0] == "err-call":
+        fstmts = None
     else:
         fstmts = [mk(dest, {"use": {"const": {"ty": "bool", "value": {"bool": fail_action[1]}}}})]
-    b_fail = _new_block(f, fstmts, dict(goto_t), "combinator-fail")
+    if fstmts is None:
+        # Err(closure()): the closure is called (not spliced: it only builds the error value), then wrapped
+        cpl_ = t["args"][1].get("move") or t["args"][1].get("copy")
+        cdef_ = _closure_def_of(f, cpl_["local"])
+        ev = _new_local(f, "?", "combinator-err")
+        b_wrap = _new_block(f, [mk(dest, {"aggregate": {"kind": "adt", "adt": RESULT, "variant": "Err", "idx": 1, "fields": ["0"]}, "ops": [{"move": pl(ev)}]})], dict(goto_t), "combinator-wrap-err")
+        ecall = {"k": "call", "callee": cdef_, "name": "call_once", "resolved": cdef_, "resolved_local": True, "args": [t["args"][1]], "dest": pl(ev),
+                 "target": b_wrap, "unwind": t.get("unwind"), "line": line, "exp": None, "synth": True, "gargs": [], "trait": None, "self_ty": None, "self_adt": None}
+        b_fail = _new_block(f, [], ecall, "combinator-fail")
+    else:
+        b_fail = _new_block(f, fstmts, dict(goto_t), "combinator-fail")
     # success arm
-    if ok_action == "payload":
+    if ok_action == "wrap-ok":
+        b_ok = _new_block(f, [mk(dest, {"aggregate": {"kind": "adt", "adt": RESULT, "variant": "Ok", "idx": 0, "fields": ["0"]}, "ops": [{"move": pl(x, fld(okv, okd))}]})],
+                          dict(goto_t), "combinator-payload")
+    elif ok_action == "payload":
         b_ok = _new_block(f, [mk(dest, {"use": {"move": pl(x, fld(okv, okd))}})], dict(goto_t), "combinator-payload")
     elif fnitem is not None:
         ga = t.get("gargs") or []
         v = _new_local(f, ga[0] if ga else "?", "combinator-payload")
-        full = fnitem.get("fn_full") or fnitem["fn"]
-        m = re.match(r"^<(.*) as (.*)>::([A-Za-z_0-9]+)$", full)
-        if m:
-            fsty, ftrait, fname = m.group(1), m.group(2).split("<")[0], m.group(3)
-        else:
-            fsty, ftrait, fname = None, None, full.split("<")[0].rsplit("::", 1)[-1]
-            if "::" in full:
-                fsty = full.rsplit("::", 1)[0]
         if ok_action == "apply-wrap":
             r = _new_local(f, ga[1] if len(ga) > 1 else "?", "combinator-result")
             b_join = _new_block(f, [mk(dest, agg(okv, okd, [{"move": pl(r)}]))], dict(goto_t), "combinator-wrap")
@@ -805,11 +902,7 @@ def _desugar_combinator(views, f, bid, depth, stack, pending):
         else:
             cdest, ctarget = dest, target
         ctor = _ctor_of(views, fnitem.get("fn_full") or fnitem["fn"]) or _ctor_of(views, fnitem["fn"])
-        local_fn = fnitem["fn"] in views.raw
-        call = {"k": "call", "callee": fnitem["fn"], "callee_full": full, "name": fname, "resolved": fnitem["fn"] if local_fn else full, "resolved_full": full,
-                "resolved_local": local_fn, "callee_local": local_fn, "args": [{"move": pl(v)}], "dest": cdest, "target": ctarget, "unwind": t.get("unwind"), "line": line,
-                "exp": None, "synth": True, "gargs": [], "trait": ftrait, "self_ty": fsty, "self_adt": (fsty or "").split("<")[0] or None,
-                "callee_crate": None, "resolved_crate": None, "instance_kind": "Item", "ret_never": False}
+        call = _fnitem_call(views, fnitem, [{"move": pl(v)}], cdest, ctarget, line, t.get("unwind"))
         if ctor is not None:
             # `.map(Some)` / `.map(Value::String)`: the mapper is a tuple-variant constructor: an aggregate, not a call
             cadt, cvar, cidx_ = ctor
@@ -840,7 +933,7 @@ def _desugar_combinator(views, f, bid, depth, stack, pending):
     b["stmts"] = list(b["stmts"]) + pre_subject + [mk(pl(d), {"discriminant": pl(x)})]
     b["desugared_call"] = t
     b["term"] = {"k": "switch", "discr": {"move": pl(d)}, "targets": [[okd, b_ok]], "otherwise": b_fail, "line": line, "exp": "desugar:Combinator"}
-    if ok_action != "payload" and h is not None:
+    if ok_action not in ("payload", "wrap-ok") and h is not None:
         _splice(f, b_ok, h, cname, thread=False)
     if not dest["proj"]:
         pending.append((target, b_fail, dest["local"], cname or "combinator"))
@@ -970,6 +1063,19 @@ STAGE_ADAPTORS = ("map", "filter_map", "filter")
 SINKS = ("collect", "extend", "for_each", "try_for_each")
 
 
+def _strip_generics(path):
+    """`a::B::<X, Y<Z>>::f` -> `a::B::f`"""
+    out, depth = [], 0
+    for ch in path:
+        if ch == "<":
+            depth += 1
+        elif ch == ">":
+            depth -= 1
+        elif depth == 0:
+            out.append(ch)
+    return "".join(out).replace("::::", "::").rstrip(":")
+
+
 def _fnitem_call(views, fnitem, args, dest, target, line, unwind):
     """call terminator applying a function item (see the combinator rewriting)"""
     full = fnitem.get("fn_full") or fnitem["fn"]
@@ -977,9 +1083,10 @@ def _fnitem_call(views, fnitem, args, dest, target, line, unwind):
     if m:
         fsty, ftrait, fname = m.group(1), m.group(2).split("<")[0], m.group(3)
     else:
-        fsty, ftrait, fname = None, None, full.split("<")[0].rsplit("::", 1)[-1]
-        if "::" in full:
-            fsty = full.rsplit("::", 1)[0]
+        plain = _strip_generics(full)
+        fsty, ftrait, fname = None, None, plain.rsplit("::", 1)[-1]
+        if "::" in plain:
+            fsty = plain.rsplit("::", 1)[0]
     local_fn = fnitem["fn"] in views.raw
     return {"k": "call", "callee": fnitem["fn"], "callee_full": full, "name": fname, "resolved": fnitem["fn"] if local_fn else full, "resolved_full": full,
             "resolved_local": local_fn, "callee_local": local_fn, "args": args, "dest": dest, "target": target, "unwind": unwind, "line": line,
